@@ -23,6 +23,7 @@ fn gen_cfg(tier: Tier) -> GenCfg {
     cfg.w_delete = 6;
     cfg.w_create = 9;
     cfg.w_len.huge = 0;
+    cfg.w_recreate_motif = 20;
     cfg.w_aligned_batch = 6;
     cfg.w_len.fileish = 8;
     cfg.w_special_names = 1;
